@@ -113,26 +113,93 @@ var c27ClassItems = []string{
 
 var c27ClassShort = []string{`\d`, `\D`, `\s`, `\S`, `\w`, `\W`, `\pL`, `\PL`, `\p{Lu}`, `\P{Lu}`, `\p{Greek}`, `\P{Greek}`, `\pN`, `\p{^Ll}`, `[[:alpha:]]`, `[[:^space:]]`}
 
+// rapid's draws favour small values (kit.Pick mostly returns the first few
+// items of a list). Class members must be spread evenly, so they are chosen
+// through a fixed mixing function of a wide draw: still a pure function of
+// rapid's draws.
+func c27Mix(g kit.G, n int, label string) int {
+	x := uint64(g.Int(0, 1<<30, label))
+	x = (x + 0x9E3779B97F4A7C15) * 0xBF58476D1CE4E5B9
+	x ^= x >> 31
+	return int(x % uint64(n))
+}
+
+// Punctuation that may be a class member in any position. '-' ',' '+' '.'
+// ']' '[' '^' '\' come several times: they are the ones a class printer has
+// to treat specially (or must not confuse with their neighbours).
+var c27ClassPunct = []rune(`-,+.][^\-,+.][^\-,-,/*?()|{}$#&~!%@=;:'"<>_ `)
+
+// Pairs of adjacent code points: the parser merges them into a two-rune range.
+var c27ClassPairs = []string{`,-`, `+,`, `-.`, `./`, `*+`, `+,-`, `,-.`, `+,-./`, `ab`, `yz`, `AB`, `01`, `89`, `()`, `[\`, `\]`, `]^`, `^_`, `{|`, `|}`, `#$`, `?@`, `Z[`, `` + "_`" + ``, ` !`}
+
+var c27ClassRanges = []string{`a-c`, `a-z`, `A-Z`, `0-9`, `x-z`, `a-f`, `0-7`, `!-/`, `+--`, `,-.`, `*-.`, ` -~`, `:-@`, `[-^`, `--9`, `É-ß`, `α-ω`, `\x00-\x1f`, `\x{80}-\x{ff}`, `\x{10000}-\x{10FFFF}`, `\x00-\x{10FFFF}`, `\x00-,`, `.-\x{10FFFF}`}
+
+var c27ClassLetters = []string{`a`, `b`, `c`, `k`, `K`, `s`, `z`, `0`, `9`, `é`, `σ`, `ς`, `日`, `😀`, `ſ`, `\x{212a}`, `\x00`, `\x7f`, `\n`, `\t`, `\r\n`, `\x{10FFFF}`, `\x2d`, `\x2c`, `\x5d`, `\055`}
+
+var c27ClassPerl = []string{`\d`, `\D`, `\s`, `\S`, `\w`, `\W`, `\d`, `\w`, `\s`, `[:alpha:]`, `[:^alpha:]`, `[:digit:]`, `[:^digit:]`, `[:space:]`, `[:upper:]`, `[:lower:]`, `[:punct:]`, `[:word:]`, `[:^word:]`, `[:cntrl:]`, `[:print:]`, `[:xdigit:]`, `[:alnum:]`}
+
+var c27ClassUnicode = []string{`\pL`, `\PL`, `\p{Lu}`, `\P{Lu}`, `\p{Greek}`, `\P{Greek}`, `\p{Han}`, `\pN`, `\p{^Ll}`, `\pZ`, `\p{Cc}`, `\pM`, `\pP`, `\p{Pd}`}
+
+// c27ClassRune renders one rune as a class member; first says whether it is
+// the first member (where a bare ']' is a literal).
+func c27ClassRune(g kit.G, r rune, first bool) string {
+	switch r {
+	case '\\':
+		return `\\`
+	case ']':
+		if first && c27Mix(g, 2, "rawbracket") == 0 {
+			return `]`
+		}
+		return `\]`
+	case '-':
+		if c27Mix(g, 4, "rawdash") == 0 {
+			return `-` // legal anywhere under the Perl flag; first / last it is the classic literal
+		}
+		return `\-`
+	case '[', '^', '.', '+', '*', '?', '(', ')', '|', '{', '}', '$':
+		if c27Mix(g, 3, "escpunct") == 0 {
+			return `\` + string(r)
+		}
+	}
+	if c27Mix(g, 12, "hexpunct") == 0 && r < 0x80 {
+		return fmt.Sprintf(`\x%02x`, r)
+	}
+	return string(r)
+}
+
 func c27Class(g kit.G) string {
-	if g.Bool(25, "classshort") {
-		return kit.Pick(g, c27ClassShort, "cs")
+	if g.Bool(20, "classshort") {
+		return c27ClassShort[c27Mix(g, len(c27ClassShort), "cs")]
 	}
 	var sb strings.Builder
 	sb.WriteByte('[')
-	if g.Bool(35, "neg") {
+	neg := g.Bool(35, "neg")
+	if neg {
 		sb.WriteByte('^')
 	}
-	switch g.Int(0, 9, "classlead") {
-	case 0:
-		sb.WriteByte(']') // a leading ']' is a literal
-	case 1:
-		sb.WriteByte('-') // a leading '-' is a literal
-	}
-	n := g.Int(1, 4, "nclass")
+	n := 1 + c27Mix(g, 5, "nclass")
 	for i := 0; i < n; i++ {
-		sb.WriteString(kit.Pick(g, c27ClassItems, "ci"))
+		first := i == 0
+		switch k := c27Mix(g, 100, "member"); {
+		case k < 32:
+			sb.WriteString(c27ClassRune(g, c27ClassPunct[c27Mix(g, len(c27ClassPunct), "punct")], first))
+		case k < 47:
+			for j, r := range c27ClassPairs[c27Mix(g, len(c27ClassPairs), "pair")] {
+				sb.WriteString(c27ClassRune(g, r, first && j == 0))
+			}
+		case k < 60:
+			sb.WriteString(c27ClassRanges[c27Mix(g, len(c27ClassRanges), "range")])
+		case k < 74:
+			sb.WriteString(c27ClassLetters[c27Mix(g, len(c27ClassLetters), "letter")])
+		case k < 88:
+			sb.WriteString(c27ClassPerl[c27Mix(g, len(c27ClassPerl), "perl")])
+		case k < 94:
+			sb.WriteString(c27ClassUnicode[c27Mix(g, len(c27ClassUnicode), "uni")])
+		default:
+			sb.WriteString(c27ClassItems[c27Mix(g, len(c27ClassItems), "ci")])
+		}
 	}
-	if g.Bool(10, "classtail") {
+	if g.Bool(12, "classtail") {
 		sb.WriteByte('-') // a trailing '-' is a literal
 	}
 	sb.WriteByte(']')
@@ -379,8 +446,8 @@ func c27Sample(g kit.G, re *syntax.Regexp, sb *strings.Builder, budget *int) {
 	}
 }
 
-var c27Context = []string{"", "", "", " ", "a", "x", "\n", "_", "é", "ab ", " b", "\nfoo\n", "0", "日", "A"}
-var c27Random = []rune("aabbcxyzABkKsS01_ -.,\n\n\t\réÉßσςλ日😀\x00\x7fK{}()[]|*+?^$\\")
+var c27Context = []string{"", "", "", " ", "a", "x", "\n", "_", "é", "ab ", " b", "\nfoo\n", "0", "日", "A", "-", ",", ".", "+", "/", "]", "[", "^", "\\", "5"}
+var c27Random = []rune("aabbcxyzABkKsS0189_ -.,--,,++../:;#@!~%&='<>`\n\n\t\réÉßσςλ日😀\x00\x7fK{}()[]|*+?^$\\")
 
 func c27Mutate(g kit.G, s string) string {
 	rs := []rune(s)
